@@ -104,6 +104,14 @@ func CheckParenExpr(x js.Expr) js.Expr {
 	return x
 }
 
+func CheckParenCtrlExpr(x js.Expr) js.Expr {
+	return x
+}
+
+func CheckParenCtrlStmt(s js.Stmt) js.Stmt {
+	return s
+}
+
 // -----------------------------------------------------------------------------
 
 func AddrOf(v js.Expr) js.Expr {
